@@ -45,7 +45,13 @@ class C40(Prop):
             "of every kind incl. WriteUnit of the current / a replaced sub-stream, OutboundBytes, WaitForReaders, Close: all "
             "wait, nothing changes, then they race on all processors and must all return); rhold (read lock "
             "held: read-lock calls return, a writer waits, readers after it wait behind it). 8 s watchdog. "
-            "Non-trivial = every case; distinct = distinct descriptions")
+            "HLS level (n/10, at least 3 more cases: a REAL hls.Server with always remux attached to the REAL pathManager; "
+            "hooks: the HLS server's logger holds hls.Server.run inside createMuxer, the auth manager holds "
+            "pathManager.run inside a handler; schedule: a muxer takes its mutex and calls pathManager.AddReader while "
+            "pathManager.run is busy, the publishers of that path and of 1-3 others leave, an API request that needs the "
+            "muxers' mutexes (sessions list / muxers list / muxers get) arrives, pathManager.run is released; program "
+            "points of both loops and the muxers inside pathManager.AddReader from goroutine dumps after each segment; "
+            "8 s watchdog). Non-trivial = every case; distinct = distinct descriptions")
     trusted_base = ["Coq 8.16.1 kernel + VM (vm_compute for cases and for the _refuted witness)",
                     "in-package driver zz_verif_c40_test.go: hooks on the real goroutines, classification of goroutine "
                     "dumps (runtime.Stack) by frame names of internal/core (pathManager.run, path.run/runInner, removePath, "
@@ -64,13 +70,20 @@ class C40(Prop):
                     "observers would only see later states: weaker, never a false alarm)",
                     "model Model/C40_StreamLock.v hand-written from stream.go / sub_stream.go (one program per public "
                     "operation, critical sections as the code delimits them), tied by the stream-level forced schedules, "
-                    "theorems C40_stream_check_settled_sound / C40_stream_obs_consistent for the check itself"]
+                    "theorems C40_stream_check_settled_sound / C40_stream_obs_consistent for the check itself",
+                    "in-package driver zz_verif_c40hls_test.go (goroutine dumps classified by the frames pathManager.run / "
+                    "doSetPathReady-NotReady -> hls.(*Server).PathReady-PathNotReady, hls.(*Server).run / createMuxer / "
+                    "(*muxer).apiSessionsList / apiItem, (*muxer).runInner -> pathManager.AddReader)",
+                    "model Model/C40_HlsLoop.v hand-written from path_manager.go (doSetPathReady/NotReady, AddReader), "
+                    "hls/server.go (run, PathReady/PathNotReady, API requests), hls/muxer.go (initialize, runInner, run, "
+                    "the mutex), hls/session.go (close2); theorem C40_hls_check_settled_sound for the enabledness test"]
     assumptions = ["NOT PROVED: data-race freedom (Go memory model) — outside what a Gallina model can express; the thorough "
                    "tier runs the soak under `go test -race` as supporting TESTING evidence only",
                    "Go channel semantics: unbuffered send/receive is a rendezvous; a select with a ready branch proceeds; "
                    "a cancelled context keeps its Done() channel closed; cancelling pm.ctx cancels every pa.ctx",
                    "calls out of the modelled processes return: hooks.On*, externalcmd, stream/recorder/forwarder Close, "
-                   "publisher/reader Close(), hls.Server.PathReady/PathNotReady (a select with its own ctx.Done()), "
+                   "publisher/reader Close() (hls.Server.PathReady/PathNotReady used to be in this list: now the HLS-level "
+                   "model proves that they return for the code with fix 029c0b4 and refutes it for the pinned code), "
                    "staticsources.Handler Start/Stop/Close, authManager.Authenticate",
                    "a handler of the path loop performs at most 3 calls to its parent (setNotAvailable, setAvailable, "
                    "closePathIfIdle) — the bound `max_pm_calls` used by the termination measure",
@@ -82,6 +95,11 @@ class C40(Prop):
                    "fan-out delivers is C17's subject, not modelled here; outDescMutex / timeMutex (leaf locks taken under "
                    "Stream.mutex) are not modelled; a ServerStream created by RTSPStream() after Close() is never closed "
                    "(lifecycle, not a race): not judged",
+                   "HLS level: path loops are abstracted to idle / sending a ready-state notification to pathManager.run (they "
+                   "serve AddReader / RemoveReader when idle: first model); HTTP handlers of the HLS server (session."
+                   "initialize, getMuxer, addSession) are clients of the loops and not modelled; the kick and muxer-exit "
+                   "cycles (A2, A3) are refuted in the model only, the driver forces A1; muxer.closeMuxer's send to "
+                   "hls.Server.run (no mutex held, ctx escape) is not modelled",
                    "not modelled: APIPathsList's loop over paths, the static-source handler's own goroutine, HLS muxers "
                    "calling back into the path manager; the two models are separate (the path manager's shutdown inside "
                    "Core.closeResources is the close() of the first model)"]
@@ -111,7 +129,12 @@ class C40(Prop):
              "scheduler does (only WaitForReaders without any AddReader stays), every schedule is finite; refuted: AddReader "
              "that unlocks before its check-then-close (two first joiners close twice; an observer sees reader + open "
              "channel), RemoveReader that unlocks before its deletes, AddReader under RLock, WriteUnit without RLock. Tied to "
-             "the code by observers placed between the calls through the real mutex.",
+             "the code by observers placed between the calls through the real mutex. HLS level (fourth model): pathManager.run, "
+             "path loops, hls.Server.run, HLS muxers and their mutex: for the code with fix 029c0b4 (path events queued, "
+             "PathReady/PathNotReady never block) EVERY state is quiescent or has an enabled step, every schedule is "
+             "finite, quiescence is reached; the pinned code (unbuffered send) is refuted by three reachable cycles - "
+             "A1 reproduced on the real code (goroutine dump: pathManager.run in PathNotReady, hls.Server.run at the muxer's "
+             "mutex, muxer in pathManager.AddReader) and fixed in /repo.",
         note="Data-race freedom is NOT decided by proof (it is a property of the Go memory model that an executable Gallina "
              "model cannot exhibit); a `go test -race` soak of the driver runs in the thorough tier as supporting testing "
              "evidence only. External calls made from the loops are assumed to return.",
